@@ -75,7 +75,8 @@ def run(ctx):
             ctx.broken('theorem', 'grep gate', hits)
         ctx.coqchk('SDC.Props.C03')
     return ctx.finish(
-        rule='atomic: histories with an application exception after each of the k body statements and with every kind of '
+        rule='histories also contain empty transactions of every kind (empty body, get_state + unget_state, every call refused), API calls that are refused and handled inside the body (the refused statement must leave nothing of itself), re-creation of context state handles through add_state, reseq operations that change only the InstanceId, and the same transaction on the same handle set repeated; '
+             'atomic: histories with an application exception after each of the k body statements and with every kind of '
              'rejected call (incl. crafted walks: remove h, aborted / rejected re-creation of h, successful re-creation), '
              'full canonical snapshot incl. the remembered versions of removed handles + report log before/after, compared '
              'with the Coq model; alias: every '
